@@ -206,6 +206,24 @@ def run(prog, chk):
         if (not gated) and not upper:
             chk.ob("R3.lower-layer-ungated", key, True, where, "%s message: may be sent during key exchange" % "/".join(classes))
 
+    # R5 lock order: never wait on the send gate while holding a lock the transport thread needs -------
+    n5 = 0
+    for cn, lock in (("Channel", "self.lock"),):
+        for f in prog.classes[cn].methods.values():
+            calls = [c for c in walk_no_defs(f.node) if M.is_call(c, attr=GATED)]
+            if not calls:
+                continue
+            lf = LockFlow(prog, f)
+            for c in calls:
+                n5 += 1
+                nodes = lf.fl.cfg.node_containing(c)
+                held = bool(nodes) and any(lf.canon(lock) in lf.held_at(n) for n in nodes)
+                chk.ob("R5.no-gated-send-under-channel-lock", "%s#%d" % (f.qual, [x for x in calls].index(c)), not held,
+                       "%s:%d" % (f.module.path, c.lineno),
+                       "the gated sender may block until the exchange completes; the transport thread needs Channel.lock to "
+                       "process in-flight channel messages, so holding it here stalls the exchange")
+    chk.floor("R5", "gated sends in Channel", n5, 15)
+
     # R4 gate discipline -----------------------------------------------------------------------
     for fq in ("Transport._send_kex_init", "Transport._negotiate_keys"):
         f = prog.func(fq)
